@@ -42,6 +42,7 @@ def kind(ty):
             raise Unsupported(f"{ty.__name__}: overridden LVBytes codec")
         return "lvbytes"
     if issubclass(ty, zt.Struct):
+        struct_quirk(ty)           # raises Unsupported on an overridden codec that is not modelled
         return "struct"
     if issubclass(ty, zb.LVList):
         return "lvlist"
@@ -52,6 +53,41 @@ def kind(ty):
     raise Unsupported(f"{ty.__name__}: unknown type kind ({[c.__name__ for c in ty.__mro__][:4]})")
 
 
+# The one overridden struct codec that is modelled: EmberKeyStruct.deserialize pads a 24-byte remainder
+# with 12 zero bytes at offset 7 (a firmware quirk).  Recognised by its (normalised) source; anything else
+# that overrides serialize / deserialize / to/from-bytes of zigpy's Struct is refused.
+_KEYSTRUCT_DESERIALIZE = """
+@classmethod
+def deserialize(cls, data: bytes) -> tuple[EmberKeyStruct, bytes]:
+    if len(data) == 24:
+        data = data[:7] + b"\\x00" * 12 + data[7:]
+    return super().deserialize(data)
+"""
+
+
+def _ast_norm(src):
+    import ast
+    import textwrap
+    tree = ast.parse(textwrap.dedent(src))
+    fn = tree.body[0]
+    fn.body = [s for s in fn.body if not (isinstance(s, ast.Expr) and isinstance(s.value, ast.Constant))]
+    return ast.dump(fn)
+
+
+def struct_quirk(ty):
+    """None, or ("PAD", when_len, at, n) for the recognised deserialisation quirk"""
+    import inspect
+    own = [n for n in ("serialize", "deserialize", "_deserialize_internal", "as_dict", "__init_subclass__", "__new__")
+           if any(n in c.__dict__ for c in ty.__mro__ if c is not zt.Struct and issubclass(c, zt.Struct) and c.__module__.startswith("bellows"))]
+    if not own:
+        return None
+    if own == ["deserialize"] and ty.__name__ == "EmberKeyStruct":
+        src = inspect.getsource(ty.__dict__["deserialize"].__func__)
+        if _ast_norm("@classmethod\n" + __import__("textwrap").dedent(src).split("@classmethod\n", 1)[-1]) == _ast_norm(_KEYSTRUCT_DESERIALIZE):
+            return ("PAD", 24, 7, 12)
+    raise Unsupported(f"{ty.__name__}: overrides {own} of zigpy's Struct in a way the translator does not model")
+
+
 def prims(ty):
     """flat primitive layout of an element type (no lists inside)"""
     k = kind(ty)
@@ -60,6 +96,8 @@ def prims(ty):
     if k == "lvbytes":
         return [("LVB", ty._prefix_length)]
     if k == "struct":
+        if struct_quirk(ty) is not None:
+            raise Unsupported(f"{ty.__name__}: struct with a deserialisation quirk inside a list element")
         out = []
         for f in ty.fields:
             _plain_field(ty, f)
@@ -115,7 +153,8 @@ def items_of_type(ty, last=True):
         # wf_schema (greedy items last) of every response/callback schema, not of request schemas
         return [("REST", prims(ty._item_type))]
     if k == "struct":
-        out = []
+        q = struct_quirk(ty)
+        out = [q] if q is not None else []
         n = len(ty.fields)
         for i, f in enumerate(ty.fields):
             flast = last and i == n - 1
@@ -169,6 +208,8 @@ def coq_item(it):
         return f"ILV {it[1]} {coq_prims(it[2])}"
     if it[0] == "FX":
         return f"IFixed {it[1]} {coq_prims(it[2])}"
+    if it[0] == "PAD":
+        return f"IPad {it[1]} {it[2]} {it[3]}"
     return {"REST": "IRest", "OPT": "IOpt", "REQ0": "IReq0"}[it[0]] + " " + coq_prims(it[1])
 
 
@@ -248,7 +289,7 @@ def flat_items(ty, v, last=True):
     if k == "fixedlist":
         return [("L", [flat_prims(ty._item_type, x) for x in v])]
     if k == "struct":
-        out = []
+        out = [("NONE",)] if struct_quirk(ty) is not None else []      # the IPad item carries no value
         n = len(ty.fields)
         for i, f in enumerate(ty.fields):
             fv = getattr(v, f.name)
